@@ -1399,3 +1399,5 @@ mutant("cfg1-unknown-default-falls-back", "C20", SOLVER, """    backend_name = c
     except ValueError:
         return _get_backend_by_name("z3")
 """, "CFG-1")
+# round 12 and the --ops 2 sweep of array.py
+mutant("opc6a-elements-built-as-boolexpr", "C12", ARRAY, "        if bool_op:\n            res.append(BoolExpr(op, expr_operands))", "        if True:\n            res.append(BoolExpr(op, expr_operands))", "OPC-6A")
